@@ -195,6 +195,113 @@ func (g *gctx) absName() (string, string) {
 	}
 }
 
+// dshOps generates a history of calls on one DirStructure tree: ChildDir with plain, multi-element and escaping
+// names on any node; Ensure on any node; Ensure* requests aimed at the registered children (every element of the
+// name a child was registered with, in particular its base name, requested below the child's parent — directly,
+// from the root, or through another node), and generic names.  The generator mirrors the node numbering
+// (a repeated ChildDir with the same name on the same node returns the existing child).
+func (g *gctx) dshOps(n int) []string {
+	rng := g.rng
+	type node struct {
+		parent int
+		name   string
+		vpath  string // as named: parent's path + "/" + name (unresolved)
+	}
+	nodes := []node{{-1, "", g.vroot}}
+	idx := map[string]int{}
+	perms := []string{"700", "750", "755", "711", "770"}
+	var ops []string
+	cnt := func(op, cls string) { g.r.Count("gen:" + op + ":" + cls) }
+	chd := func(h int, name, cls string) {
+		ops = append(ops, fmt.Sprintf("chd %d %s %s", h, hx(name), pick(rng, perms)))
+		cnt("chd", cls)
+		k := fmt.Sprintf("%d/%s", h, name)
+		if _, ok := idx[k]; !ok {
+			idx[k] = len(nodes)
+			nodes = append(nodes, node{h, name, nodes[h].vpath + "/" + name})
+		}
+	}
+	for len(ops) < n {
+		h := rng.Intn(len(nodes))
+		if rng.Intn(3) != 0 {
+			h = 0
+			if len(nodes) > 1 && rng.Intn(3) == 0 {
+				h = 1 + rng.Intn(len(nodes)-1)
+			}
+		}
+		switch x := rng.Intn(100); {
+		case x < 30 || len(nodes) == 1:
+			switch y := rng.Intn(100); {
+			case y < 25:
+				chd(h, pick(rng, []string{"tmp", "sub", "a", "b", "evil", "k"}), "plain")
+			case y < 40:
+				chd(h, pick(rng, []string{"tmp/", "./tmp", "a/b", "a/../b", "tmp/sub", "/abs", "", ".", "a//b", "x/./y"}), "multi-inside")
+			case y < 80:
+				g.hostile = true
+				chd(h, pick(rng, []string{"../evil", "../" + g.rootName + "-other", "../" + g.rootName + "x", "../other", "x/../../evil", "..", "../..",
+					"../" + g.rootName, "../" + g.rootName + "/k", "../" + g.rootName + "-new", "../../evil", "../evil/sub", "a/../../" + g.rootName + "-other/sub",
+					"../top.txt", "../note.txt", "../" + g.rootName + "-other/plain.txt"}), "escaping")
+			default:
+				name, cls := g.relName()
+				chd(h, name, cls)
+			}
+		case x < 40:
+			ops = append(ops, fmt.Sprintf("hens %d", h))
+			cnt("hens", "node")
+		case x < 75:
+			// aim at a registered child: an element of its name, requested below its parent
+			c := nodes[1+rng.Intn(len(nodes)-1)]
+			var segs []string
+			for _, sg := range strings.Split(c.name, "/") {
+				if sg != "" && sg != "." && sg != ".." {
+					segs = append(segs, sg)
+				}
+			}
+			if len(segs) == 0 {
+				segs = []string{"tmp"}
+			}
+			sg := segs[len(segs)-1]
+			cls := "child-base"
+			if rng.Intn(4) == 0 {
+				sg, cls = pick(rng, segs), "child-element"
+			}
+			rel := sg
+			for i := rng.Intn(3); i > 0; i-- {
+				rel += "/" + pick(rng, insidePool)
+			}
+			switch rng.Intn(4) {
+			case 0:
+				ops = append(ops, fmt.Sprintf("henr %d %s", c.parent, hx(rel)))
+				cnt("henr", cls)
+			case 1:
+				ops = append(ops, fmt.Sprintf("hend %d %s", c.parent, hxList(strings.Split(rel, "/"))))
+				cnt("hend", cls)
+			case 2:
+				// the same request as an absolute path, through any node
+				ops = append(ops, fmt.Sprintf("hena %d %s", h, hx(nodes[c.parent].vpath+"/"+rel)))
+				cnt("hena", cls)
+			default:
+				// below the root, whatever the child's parent is
+				ops = append(ops, fmt.Sprintf("henr 0 %s", hx(rel)))
+				cnt("henr", cls+"-from-root")
+			}
+		case x < 83:
+			name, cls := g.relName()
+			ops = append(ops, fmt.Sprintf("henr %d %s", h, hx(name)))
+			cnt("henr", cls)
+		case x < 90:
+			name, cls := g.relName()
+			ops = append(ops, fmt.Sprintf("hend %d %s", h, hxList(strings.Split(name, "/"))))
+			cnt("hend", cls)
+		default:
+			name, cls := g.absName()
+			ops = append(ops, fmt.Sprintf("hena %d %s", h, hx(name)))
+			cnt("hena", cls)
+		}
+	}
+	return ops
+}
+
 func emitCase(r *hxlib.Run, emit func(hxlib.Case), comp, rootRel, variant, cwdRel string, noModel bool, kind string, ops func(g *gctx) []string) {
 	g := &gctx{r: r, rng: r.Rng, comp: comp, rootRel: rootRel}
 	segs := strings.Split(rootRel, "/")
@@ -248,12 +355,26 @@ func generate(r *hxlib.Run, emit func(hxlib.Case)) {
 			"unz " + hxList([]string{"d/", "d/f", "../x"}), "unz " + hxList([]string{"d/", "d/f", "g"}), "unz " + hxList([]string{"/abs"})}
 	})
 
+	// histories on one DirStructure tree (seeded C18-r2-2: a child registered under an escaping name serves a later in-scope request)
+	emitCase(r, emit, "dsh", "w/a/root", "plain", "", false, "corpus", func(g *gctx) []string {
+		g.hostile = true
+		return []string{"chd 0 " + hx("../evil") + " 700", "hens 1", "henr 0 " + hx("evil/sub"), "chd 0 " + hx("../root-other") + " 700",
+			"hena 0 " + hx(g.vroot+"/root-other"), "chd 0 " + hx("tmp") + " 700", "chd 2 " + hx("sub") + " 750", "chd 3 " + hx("../../../rootx") + " 711",
+			"hend 3 " + hxList([]string{"sub", "rootx", "q"}), "hena 4 " + hx(g.vroot+"/tmp/rootx"), "chd 0 " + hx("tmp") + " 711", "henr 0 " + hx("tmp/./k"),
+			"chd 0 " + hx("./tmp") + " 750", "henr 0 " + hx("tmp")}
+	})
+
 	// ---- generated cases ----------------------------------------------------------------------------
-	nCases := r.Budget(1500, 30000)
+	nCases := r.Budget(2000, 40000)
 	for ci := 0; ci < nCases; ci++ {
 		rootRel := pick(rng, rootRels)
-		comp := []string{"fst", "ds", "upd"}[ci%3]
+		comp := []string{"fst", "ds", "upd", "dsh"}[ci%4]
 		variant := "plain"
+		if comp == "dsh" {
+			variant = []string{"plain", "plain", "slash", "noexist"}[rng.Intn(4)]
+			emitCase(r, emit, comp, rootRel, variant, "", false, comp, func(g *gctx) []string { return g.dshOps(8 + rng.Intn(17)) })
+			continue
+		}
 		if comp == "ds" {
 			variant = []string{"plain", "plain", "slash", "noexist"}[rng.Intn(4)]
 		}
